@@ -208,9 +208,12 @@ class DSDLTemplateLoader(BaseLoader):
         """
         template_path = None
         if self._fsloader is not None:
-            template_path = self._type_to_template_internal(
-                value_type, self._type_templates(self._fsloader.list_templates()), "fs"
-            )
+            # a name the file-system loader lists but cannot load (a dangling link) is not an existing template.
+            loadable = [
+                f for f in self._fsloader.list_templates()
+                if any((pathlib.Path(p) / f).is_file() for p in self._fsloader.searchpath)
+            ]
+            template_path = self._type_to_template_internal(value_type, self._type_templates(loadable), "fs")
         if template_path is None and self._package_loader is not None:
             template_path = self._type_to_template_internal(
                 value_type, self._type_templates(self._package_loader.list_templates()), "package"
